@@ -159,6 +159,17 @@ type c02Op struct {
 	Trace    []string `json:"trace,omitempty"`  // race: the store methods that were gated, in schedule order (information)
 	Fault string `json:"fault,omitempty"` // "nonce-get": the session store fails the first read of an s2s nonce entry during this request (Redis worlds)
 	HTTP bool `json:"http,omitempty"` // the operation goes through the real echo routes (form binding, strict handler, error writers)
+	// token endpoint: the grant_type the request is sent with (absent = the flow's own)
+	Grant *string `json:"grant_type,omitempty"`
+	// authz: a request at the authorization endpoint (request object delivery + scripted environment), see zz_verif_c02jar_test.go
+	Enabled    bool           `json:"enabled,omitempty"`
+	Q          *c02JarQ       `json:"q,omitempty"`
+	Get        []c02Fetch     `json:"get,omitempty"`
+	Post       []c02Fetch     `json:"post,omitempty"`
+	Tokens     []c02JarToken  `json:"tokens,omitempty"`
+	Configs    []c02JarConfig `json:"configs,omitempty"`
+	Resolver   []c02KidKey    `json:"resolver,omitempty"`
+	JarDefects []string       `json:"jar_defects,omitempty"`
 	// introspect / probe / advance
 	Token    string `json:"token,omitempty"`
 	Extended bool   `json:"extended,omitempty"`
@@ -195,6 +206,12 @@ type c02World struct {
 	sched    *c02Sched
 	failNonceGet bool // armed: the next GET of an s2s nonce key fails
 	verifyArgsBad bool
+	// authz leg
+	jarOp        *c02Op
+	jarReal      map[string]string // token name -> compact JWT
+	jarCalls     []string
+	inJar        bool
+	authzEnabled bool
 }
 
 // c02Ager ages every stored session entry by d (time translation); rewrite may adjust time stamps inside a value
@@ -379,6 +396,8 @@ func c02NewWorld(t *testing.T, cfg c02Op) *c02World {
 	authn := auth.NewMockAuthenticationServices(ctrl)
 	pub, _ := url.Parse(cfg.PublicURL)
 	authn.EXPECT().PublicURL().Return(pub).AnyTimes()
+	authn.EXPECT().AuthorizationEndpointEnabled().DoAndReturn(func() bool { return w.authzEnabled }).AnyTimes()
+	authn.EXPECT().SupportedDIDMethods().Return([]string{"web"}).AnyTimes()
 	sm := didsubject.NewMockManager(ctrl)
 	sm.EXPECT().Exists(gomock.Any(), gomock.Any()).DoAndReturn(func(_ context.Context, s string) (bool, error) {
 		for _, k := range cfg.Subjects {
@@ -459,12 +478,18 @@ func c02NewWorld(t *testing.T, cfg c02Op) *c02World {
 		return []did.DID{did.MustParseDID("did:web:as.example:iam:" + s)}, nil
 	}).AnyTimes()
 	ic := iamclient.NewMockClient(ctrl)
+	ic.EXPECT().RequestObjectByGet(gomock.Any(), gomock.Any()).DoAndReturn(w.jarRequestObjectByGet).AnyTimes()
+	ic.EXPECT().RequestObjectByPost(gomock.Any(), gomock.Any(), gomock.Any()).DoAndReturn(w.jarRequestObjectByPost).AnyTimes()
 	ic.EXPECT().OpenIDConfiguration(gomock.Any(), gomock.Any()).DoAndReturn(func(_ context.Context, issuer string) (*oauth.OpenIDConfiguration, error) {
+		if w.inJar && w.jarOp != nil {
+			return w.jarOpenIDConfiguration(issuer)
+		}
 		return &oauth.OpenIDConfiguration{Issuer: issuer, Metadata: oauth.EntityStatementMetadata{OpenIDProvider: oauth.AuthorizationServerMetadata{
 			Issuer: issuer, AuthorizationEndpoint: issuer + "/authorize", ClientIdSchemesSupported: clientIdSchemesSupported}}}, nil
 	}).AnyTimes()
 	authn.EXPECT().IAMClient().Return(ic).AnyTimes()
-	w.w = &Wrapper{auth: authn, subjectManager: sm, vcr: mvcr, storageEngine: engine, policyBackend: pdp, jar: jar{auth: authn}}
+	w.w = &Wrapper{auth: authn, subjectManager: sm, vcr: mvcr, storageEngine: engine, policyBackend: pdp,
+		jar: c02JarSpy{JAR: jar{auth: authn, keyResolver: c02KeyResolver{w}}, w: w}}
 	// the HTTP face: the node's error handler and the routes exactly as Wrapper.Routes registers them
 	w.echo = echo.New()
 	w.echo.HTTPErrorHandler = core.CreateHTTPErrorHandler()
@@ -761,6 +786,9 @@ func (w *c02World) execS2S(op *c02Op) string {
 	op.DPoP = d
 	op.Pex = w.pexVerdicts(op.Scope, op.Assertion, op.Submission)
 	body := HandleTokenRequestFormdataRequestBody{GrantType: oauth.VpTokenGrantType}
+	if op.Grant != nil {
+		body.GrantType = *op.Grant
+	}
 	if op.Params {
 		body.Assertion, body.PresentationSubmission, body.ClientId = op.Assertion, op.Submission, op.ClientID
 		body.Scope = &op.Scope
@@ -1075,30 +1103,7 @@ func (w *c02World) execAuthReq(op *c02Op) string {
 	set(oauth.ResponseTypeParam, "code")
 	op.T = w.nowNs()
 	return c02Recover(func() string {
-		resp, err := w.w.handleAuthorizeRequestFromHolder(context.Background(), op.Subject, params)
-		if err != nil {
-			return c02Err(err)
-		}
-		r, ok := resp.(HandleAuthorizeRequest302Response)
-		if !ok {
-			return fmt.Sprintf("unexpected-response:%T", resp)
-		}
-		u, err := url.Parse(r.Headers.Location)
-		if err != nil {
-			return "unparsable-redirect"
-		}
-		state := u.Query().Get("state")
-		name, known := w.stateNames[state]
-		if !known {
-			name = fmt.Sprintf("st#%d", len(w.stateNames))
-			w.stateNames[state] = name
-			w.stateReal[name] = state
-		}
-		owner := "?"
-		if pd, err := url.Parse(u.Query().Get("presentation_definition_uri")); err == nil {
-			owner = pd.Query().Get("wallet_owner_type")
-		}
-		return fmt.Sprintf("302 state=%s nonce=%s owner=%s", name, w.nonceName(u.Query().Get("nonce")), owner)
+		return w.canonAuthorize(w.w.handleAuthorizeRequestFromHolder(context.Background(), op.Subject, params))
 	})
 }
 
@@ -1217,6 +1222,9 @@ func (w *c02World) execCode(op *c02Op) string {
 	hdr, d := w.dpopHeader(op.DPoP)
 	op.DPoP = d
 	body := HandleTokenRequestFormdataRequestBody{GrantType: oauth.AuthorizationCodeGrantType, CodeVerifier: op.Verifier, ClientId: op.ClientID}
+	if op.Grant != nil {
+		body.GrantType = *op.Grant
+	}
 	if op.Code != nil {
 		c := w.realCode(*op.Code)
 		body.Code = &c
@@ -1272,6 +1280,8 @@ func (w *c02World) exec(op *c02Op) string {
 		return w.execRace(op)
 	case "code":
 		return w.execCode(op)
+	case "authz":
+		return w.execAuthz(op)
 	}
 	return "bad-op:" + op.Op
 }
@@ -1745,6 +1755,9 @@ func (g *c02Gen) seed() c02Op {
 	g.sessions = append(g.sessions, sess)
 	return c02Op{Op: "seed", State: &sess.State, Nonce: nonce, Session: &sess.Spec}
 }
+
+var c02GrantTypes = []string{"authorization_code", "vp_token-bearer", "urn:ietf:params:oauth:grant-type:pre-authorized_code", "refresh_token", "",
+	"Authorization_Code", "VP_TOKEN-BEARER", "vp_token-bearer ", "vp_token", "authorization_code,vp_token-bearer", "urn:ietf:params:oauth:grant-type:jwt-bearer", "client_credentials"}
 
 var c02AuthReqDefects = []string{"missing-redirect_uri", "wrong-audience", "missing-challenge", "method-plain", "method-missing", "wrong-scope"}
 
@@ -2908,6 +2921,14 @@ func TestVerifC02(t *testing.T) {
 					op = g.seed() // an arbitrary server state (also sessions no authorization request would create)
 				} else {
 					op, pendingSess = g.authRequest(g.subsetOf(c02AuthReqDefects, 2))
+					if rng.Intn(2) == 0 {
+						// the same request as a signed request object at the authorization endpoint
+						op.Defects = g.subsetOf(c02AuthReqDefects, 1)
+						if rng.Intn(3) > 0 {
+							op, pendingSess = g.authRequest(nil)
+						}
+						g.toAuthz(&op, g.subsetOf(c02JarDefects, 2))
+					}
 				}
 			case r >= 100 && r < 104 && fresh != nil && !w.redis:
 				// two overlapping posts of the same (valid) response under a random schedule
@@ -2981,7 +3002,20 @@ func TestVerifC02(t *testing.T) {
 				// a transient read failure of the nonce entry: most useful during a replay, harmless otherwise
 				op.Fault, op.HTTP = "nonce-get", false
 			}
+			if (op.Op == "s2s" || op.Op == "code") && op.Fault == "" && rng.Intn(8) == 0 {
+				// the grant_type switch: the other grant's name, unsupported and near-miss names, the own name as control
+				op.Grant = c02Ptr(g.pick(c02GrantTypes))
+				op.ExtraForm = nil
+			}
 			line := w.exec(&op)
+			if op.Op == "authz" && pendingSess != nil {
+				if i := strings.Index(line, "] 302 "); i >= 0 {
+					f := strings.Fields(line[i+2:])
+					pendingSess.State = f[1][len("state="):]
+					pendingSess.Nonces = []string{f[2][len("nonce="):]}
+					g.sessions = append(g.sessions, pendingSess)
+				}
+			}
 			if op.Op == "authreq" && pendingSess != nil && strings.HasPrefix(line, "302 ") {
 				f := strings.Fields(line)
 				pendingSess.State = f[1][len("state="):]
